@@ -39,6 +39,9 @@ def configs(tier, seed):
                         # names longer than any file-name limit one might think of: one file per array all the same
                         out.append(dict(h="export", op=form + "long", key=key + "/long_names", procs=procs, flows=[list(p) for p in fs], fdims=fdims, stocks=sc, form=form,
                                         name_prefix="material flows of the regional building stock model, scenario with extended lifetimes: "))
+                    if sc and i % 2 == 0 and form != "csv":
+                        # a stock carrying the name of a flow (separate name spaces): both are exported, each under its kind
+                        out.append(dict(h="export", op=form + "same", key=key + "/stock_named_like_flow", procs=procs, flows=[list(p) for p in fs], fdims=fdims, stocks=sc, form=form, stock_named_like_flow=True))
                     if form == "numpy" and rot == 0:
                         out.append(dict(h="export", op=form + "ids", key=key + "/permuted_ids", procs=procs, flows=[list(p) for p in fs], fdims=fdims, stocks=sc, form=form, permuted_ids=True))
     # MFADefinition.to_dfs: purely structural (no numeric content exists): every subset of non-empty kinds of definition
